@@ -436,6 +436,108 @@ func runC03(c *Ctx, r *Report) {
 		}
 	}
 
+	// the start entries are on the stack before anything is marked: unless they are marked visited up front (or a
+	// popped entry that is already marked is skipped), a start entry that lies in the causal past of another one is
+	// pushed a second time, taken twice and counted twice against the requested amount
+	{
+		var mainLoop *ast.ForStmt
+		walkNoLit(tr.Body, func(n ast.Node) bool {
+			if fs, ok := n.(*ast.ForStmt); ok && mainLoop == nil {
+				hasPop := false
+				walkNoLit(fs.Body, func(m ast.Node) bool {
+					if _, ok := isPop(m); ok {
+						hasPop = true
+					}
+					return true
+				})
+				if hasPop {
+					mainLoop = fs
+				}
+			}
+			return true
+		})
+		marked := false
+		if mainLoop != nil {
+			// (a) a loop before the walk that marks what it ranges over
+			walkNoLit(tr.Body, func(n ast.Node) bool {
+				rs, ok := n.(*ast.RangeStmt)
+				if !ok || rs.Pos() >= mainLoop.Pos() {
+					return true
+				}
+				rangeVars := map[types.Object]bool{}
+				for _, kv := range []ast.Expr{rs.Key, rs.Value} {
+					if id, ok := kv.(*ast.Ident); ok && id.Name != "_" {
+						rangeVars[p.ObjOf(tr, id)] = true
+					}
+				}
+				walkNoLit(rs.Body, func(m ast.Node) bool {
+					as, ok := m.(*ast.AssignStmt)
+					if !ok {
+						return true
+					}
+					for _, l := range as.Lhs {
+						ix, ok := ast.Unparen(l).(*ast.IndexExpr)
+						if !ok {
+							continue
+						}
+						if id, ok := ast.Unparen(ix.X).(*ast.Ident); !ok || p.ObjOf(tr, id) != visited {
+							continue
+						}
+						ast.Inspect(ix.Index, func(k ast.Node) bool {
+							if id, ok := k.(*ast.Ident); ok && rangeVars[p.ObjOf(tr, id)] {
+								marked = true
+							}
+							return true
+						})
+						if v := entryVarIn(p, tr, ix.Index); v != nil && rangeVars[v] {
+							marked = true
+						}
+					}
+					return true
+				})
+				return true
+			})
+			// (b) a popped entry that is already marked is skipped before it is counted: a statement of the walk's
+			// own body (not of the loop over the predecessors) whose subject is the variable the pop defines
+			var poppedVar types.Object
+			for _, st := range mainLoop.Body.List {
+				if as, ok := st.(*ast.AssignStmt); ok && len(as.Lhs) == 1 && len(as.Rhs) == 1 {
+					if _, ok := isPop(ast.Unparen(as.Rhs[0])); ok {
+						if id, ok := as.Lhs[0].(*ast.Ident); ok {
+							poppedVar = p.ObjOf(tr, id)
+						}
+					}
+				}
+			}
+			for _, st := range mainLoop.Body.List {
+				ifs, ok := st.(*ast.IfStmt)
+				if !ok || len(ifs.Body.List) == 0 {
+					continue
+				}
+				if br, ok := ifs.Body.List[len(ifs.Body.List)-1].(*ast.BranchStmt); !ok || br.Tok != token.CONTINUE {
+					continue
+				}
+				for _, a := range splitCond(ifs.Cond, true) {
+					if id, ok := ast.Unparen(a.E).(*ast.Ident); ok && a.Truth {
+						if v := lookupSubject(p, tr, id, visited); v != nil && poppedVar != nil && types.Object(v) == poppedVar {
+							marked = true
+						}
+					}
+				}
+				if init, ok := ifs.Init.(*ast.AssignStmt); ok && len(init.Lhs) == 2 {
+					if id, ok := init.Lhs[1].(*ast.Ident); ok {
+						if v := lookupSubject(p, tr, id, visited); v != nil && poppedVar != nil && types.Object(v) == poppedVar {
+							marked = true
+						}
+					}
+				}
+			}
+		}
+		r.Check(marked, "R-C03.3", r.Key("R-C03.3", tr, "start-marked", ""), tr.Body.Pos(),
+			"the start entries are marked visited before the walk (or an already marked entry is skipped when it is taken)",
+			"the start entries are put on the stack without being marked visited, and nothing skips an entry that is taken a second time: a start entry that lies in the causal past of another start entry is pushed again when the walk reaches it, taken twice and counted twice — with an amount the iteration stops early and emits fewer entries than asked for and available")
+	}
+
 	// R-C03.5
 	vals := p.FuncI("", "IPFSLog", "values")
 	headsF, entriesF := p.Field("", "IPFSLog", "heads"), p.Field("", "IPFSLog", "Entries")
